@@ -1,3 +1,4 @@
+import XdsVerif.Proofs.Reg
 import XdsVerif.Proofs.Flow
 import XdsVerif.Proofs.Conc
 import XdsVerif.Proofs.Sys
@@ -232,6 +233,23 @@ resource every handler has completed for the update that delivered it -/
 theorem policy_before_data :
     Generated.seq.updateOrder = ["lock", "handlers", "write+notify", "prune", "meta"] ∧
     Generated.handlers.handlersFirst = true := by decide
+
+theorem facts_registration : Generated.regShape = .atomic := by decide
+
+/-- **policy before data, over all interleavings of updates and handler registrations** (`Model/Reg.lean`, any number
+of handlers, at the granularity of the manager's lock sections): what a lookup can see, every registered handler has
+completed for. The registration shape is the one re-read from the source. -/
+theorem policy_before_data_interleaved (ops : List Reg.Op) (s : Reg.S) (h : Reg.run Generated.regShape Reg.init ops = some s) :
+    Reg.PolicyBeforeData s := by
+  rw [facts_registration] at h
+  exact (Reg.policy_before_data_all ops s h).1
+
+/-- a registration split into two lock sections (either way round) breaks it: closed schedules, kept as the reason why
+`facts_registration` matters -/
+theorem torn_registration_breaks_it :
+    (Reg.run .replayThenAppend Reg.init [.update 1, .regBegin 7, .update 2, .regEnd 7]).map (fun s => (s.cache, s.applied 7)) = some (some 2, some 1) ∧
+    (Reg.run .appendThenReplay Reg.init [.update 1, .regBegin 7, .update 2, .regEnd 7]).map (fun s => (s.cache, s.applied 7)) = some (some 2, some 1) := by
+  decide
 
 /-- does the lock graph admit a cycle? (executable check: a topological peel removes every node) -/
 def acyclic (edges : List (String × String)) : Bool :=
